@@ -226,7 +226,7 @@ def num_eq(a: float, b: Fr, exact: bool):
     fb = float(b)
     if exact and Fr(fb) == b:
         return a == fb
-    return abs(a - fb) <= 1e-11 * max(1.0, abs(fb))
+    return abs(a - fb) <= 1e-7 * max(1.0, abs(fb))
 
 
 def compare(c, m, r):
@@ -331,7 +331,7 @@ def main():
             continue
         mism, margin = compare(c, m, r)
         if mism:
-            if not c["exact"] and margin < 1e-9:
+            if not c["exact"] and margin < 1e-6:
                 ties += 1
                 continue
             bad_corr = bad_corr or (jc, mism, r)
